@@ -349,7 +349,9 @@ func (rm *RequestManager) updateLastResponses(responses []gsmsg.GraphSyncRespons
 
 func (rm *RequestManager) processExtensionsForResponse(p peer.ID, response gsmsg.GraphSyncResponse) bool {
 	// only the peer a request was sent to may drive its hooks, updates and cancellation
-	if requestStatus, ok := rm.inProgressRequestStatuses[response.RequestID()]; !ok || requestStatus.p != p {
+	// (a response for a request that is no longer in progress has nothing left to drive:
+	// its hooks still see it, as they always did for late responses)
+	if requestStatus, ok := rm.inProgressRequestStatuses[response.RequestID()]; ok && requestStatus.p != p {
 		return false
 	}
 	result := rm.responseHooks.ProcessResponseHooks(p, response)
